@@ -1135,6 +1135,191 @@ Proof.
   - destruct (IH H) as [x [Hx Hr]]. exists x. split; [now right|assumption].
 Qed.
 
+(* ---------- crowding_distance never raises on finite objectives ---------- *)
+Definition finite_objs (x : xsol) : Prop := Forall (fun v => fin v <> None) (s_objs x).
+
+Lemma obj_at_finite i x : finite_objs x -> fin (obj_at i x) <> None.
+Proof.
+  intro H. unfold obj_at. destruct (Nat.lt_ge_cases i (length (s_objs x))) as [L|G].
+  - unfold finite_objs in H. rewrite Forall_forall in H. apply H. now apply nth_In.
+  - rewrite nth_overflow by assumption. discriminate.
+Qed.
+
+Definition store_good (st : cstore) : Prop := forall j v, cget st j = Some v -> not_ninf v.
+Definition store_binds (st : cstore) (u : list xsol) : Prop := forall x, In x u -> cget st (sid x) <> None.
+
+Lemma cset_good st i v : store_good st -> not_ninf v -> store_good (cset st i v).
+Proof.
+  intros G Hv j w. rewrite cget_cset. destruct (Nat.eqb i j); [intro E; now injection E as <-|apply G].
+Qed.
+
+Lemma cset_binds st i v u : store_binds st u -> store_binds (cset st i v) u.
+Proof.
+  intros B x Hx. rewrite cget_cset. destruct (Nat.eqb i (sid x)); [discriminate|now apply B].
+Qed.
+
+Lemma cadd_total st i v u x : store_good st -> store_binds st u -> In x u -> i = sid x -> not_ninf v ->
+  exists st', cadd st i v = Some st' /\ store_good st' /\ store_binds st' u.
+Proof.
+  intros G B Hx -> Hv. unfold cadd. destruct (cget st (sid x)) as [w|] eqn:E; [|exfalso; now apply (B x Hx)].
+  destruct (xadd_ok w v (G _ _ E) Hv) as [A N]. rewrite A. eexists. split; [reflexivity|]. split.
+  - now apply cset_good.
+  - now apply cset_binds.
+Qed.
+
+Lemma crowd_interior_total i mn mx u : forall w st, incl w u -> (forall x, In x u -> finite_objs x) ->
+  store_good st -> store_binds st u ->
+  exists st', crowd_interior i mn mx w st = Some st' /\ store_good st' /\ store_binds st' u.
+Proof.
+  induction w as [|p tl IH]; intros st Hw Hfin G B; [simpl; eauto|].
+  destruct tl as [|c0 [|n r]]; try (simpl; eauto; fail).
+  rewrite crowd_interior_cons3.
+  assert (Hstep : exists st1, crowd_interior_step i mn mx p c0 n st = Some st1 /\ store_good st1 /\ store_binds st1 u).
+  { unfold crowd_interior_step. destruct (Qltb (mx - mn) EPSILON).
+    - eexists. split; [reflexivity|]. split; [apply cset_good; [assumption|discriminate]|now apply cset_binds].
+    - assert (Hn : In n u) by (apply Hw; right; right; now left).
+      assert (Hp : In p u) by (apply Hw; now left).
+      destruct (fin (obj_at i n)) as [b|] eqn:Eb; [|exfalso; now apply (obj_at_finite i n (Hfin n Hn))].
+      destruct (fin (obj_at i p)) as [a|] eqn:Ea; [|exfalso; now apply (obj_at_finite i p (Hfin p Hp))].
+      apply (cadd_total st (sid c0) _ u c0); auto; [apply Hw; right; now left|discriminate]. }
+  destruct Hstep as [st1 [E1 [G1 B1]]]. rewrite E1.
+  apply IH; auto. intros y Hy. apply Hw. now right.
+Qed.
+
+Lemma crowd_pass_total i u st : u <> [] -> (forall x, In x u -> finite_objs x) ->
+  store_good st -> store_binds st u ->
+  exists st', crowd_pass i u st = Some st' /\ store_good st' /\ store_binds st' u.
+Proof.
+  intros Hne Hfin G B. unfold crowd_pass.
+  pose proof (ssort_perm _ (obj_lt i) u) as HP. fold (sort_by_obj i u) in HP.
+  assert (Hin : incl (sort_by_obj i u) u) by (intros y Hy; eapply Permutation_in; eauto).
+  destruct (sort_by_obj i u) as [|first rest] eqn:E.
+  - apply Permutation_nil in HP. congruence.
+  - assert (Hf : In first u) by (apply Hin; now left).
+    assert (Hl : In (last (first :: rest) first) u).
+    { apply Hin. destruct rest as [|b rest']; [now left|]. right. apply last_in_tail. }
+    destruct (fin (obj_at i first)) as [mn|] eqn:Emn; [|exfalso; now apply (obj_at_finite i first (Hfin _ Hf))].
+    destruct (fin (obj_at i (last (first :: rest) first))) as [mx|] eqn:Emx;
+      [|exfalso; now apply (obj_at_finite i _ (Hfin _ Hl))].
+    destruct (cadd_total st (sid first) PInf u first G B Hf eq_refl ltac:(discriminate)) as [st1 [E1 [G1 B1]]].
+    rewrite E1.
+    destruct (cadd_total st1 (sid (last (first :: rest) first)) PInf u _ G1 B1 Hl eq_refl ltac:(discriminate)) as [st2 [E2 [G2 B2]]].
+    rewrite E2. now apply crowd_interior_total.
+Qed.
+
+Lemma crowd_passes_total u : forall is st, u <> [] -> (forall x, In x u -> finite_objs x) ->
+  store_good st -> store_binds st u -> exists st', crowd_passes is u st = Some st'.
+Proof.
+  induction is as [|i is IH]; intros st Hne Hfin G B; simpl; [eauto|].
+  destruct (crowd_pass_total i u st Hne Hfin G B) as [st1 [E1 [G1 B1]]]. rewrite E1. now apply IH.
+Qed.
+
+Theorem crowding_total nobjs front :
+  (forall x, In x front -> finite_objs x /\ nobjs <= length (s_objs x)) -> exists st, crowding nobjs front = Some st.
+Proof.
+  intro H. unfold crowding. destruct (Nat.ltb (length (unique front)) 3) eqn:E; [eauto|].
+  apply Nat.ltb_ge in E.
+  assert (Hall : forallb (fun s => Nat.leb nobjs (length (s_objs s))) (unique front) = true).
+  { apply forallb_forall. intros x Hx. apply Nat.leb_le. apply H. now apply unique_incl. }
+  rewrite Hall. apply crowd_passes_total.
+  - intro C. rewrite C in E. simpl in E. lia.
+  - intros x Hx. apply H. now apply unique_incl.
+  - intros j v. rewrite fold_cset_get. destruct (has_sid j front); [|discriminate]. intro Q. injection Q as <-. discriminate.
+  - intros x Hx. rewrite fold_cset_get.
+    assert (has_sid (sid x) front = true) by (apply has_sid_In; exists x; split; [now apply unique_incl|reflexivity]).
+    rewrite H0. discriminate.
+Qed.
+
+(* ---------- facts at the level of the log of rounds ---------- *)
+Section XLog.
+  Variable c : bool.
+  Variable dirs : list bool.
+  Variable l : list xsol.
+  Variable log : list (nat * list xsol * cstore).
+  Notation wfs := (sol_wf xq xltb xzero dirs).
+  Hypothesis Hwf : Forall wfs l.
+  Hypothesis Hinj : sid_inj l.
+  Hypothesis Hl : x_nd_sort_log c dirs l = Some log.
+
+  Let R1 := scmp_range xq xltb xneg xzero xq_laws c dirs.
+  Let R2 := scmp_antisym xq xltb xneg xzero xq_laws c dirs.
+  Let R3 := sdom_trans xq xltb xneg xzero xq_laws c dirs.
+  Let R4 := sdom_irrefl xq xltb xneg xzero xq_laws c dirs.
+
+  Lemma log_crowd_front x k : In x l -> rank_of log (sid x) = Some k -> exists front cs v,
+    In x front /\ sid_inj front /\
+    (forall y, In y l -> (In y front <-> rank_of log (sid y) = Some k)) /\
+    (forall y, In y front -> In y l) /\
+    crowding (length dirs) front = Some cs /\ cget cs (sid x) = Some v /\ crowd_of log (sid x) = Some v.
+  Proof.
+    intros HxL Hr.
+    pose proof (rank_front xq (x_sol_cmp c dirs) wfs cstore (crowding (length dirs)) R1 R2 R3 R4 l log Hwf Hinj Hl) as RF.
+    destruct (loop_layering xq (x_sol_cmp c dirs) wfs cstore (crowding (length dirs)) R1 R2 R3 R4 _ _ _ _ Hl Hwf Hinj) as [L _].
+    pose proof (layering_cover xq (x_sol_cmp c dirs) cstore (crowding (length dirs)) _ _ L) as LCov.
+    pose proof (layering_disjoint xq (x_sol_cmp c dirs) cstore (crowding (length dirs)) _ _ L) as LDis.
+    pose proof (proj1 (RF _ _ HxL) Hr) as Hin.
+    set (front := nth k (fronts_of xq cstore log) []) in *.
+    assert (Hk : k < length log).
+    { destruct (Nat.lt_ge_cases k (length log)) as [|G]; [assumption|]. exfalso. unfold front in Hin.
+      rewrite nth_overflow in Hin; [contradiction|]. unfold fronts_of. now rewrite map_length. }
+    assert (Hnth : forall j e, nth_error log j = Some e -> nth j (fronts_of xq cstore log) [] = snd (fst e)).
+    { intros j e He. unfold fronts_of.
+      apply (map_nth_error (fun e => snd (fst e))) in He. now apply nth_error_nth. }
+    destruct (nth_error log k) as [[[r f] cs]|] eqn:Ek; [|apply nth_error_None in Ek; lia].
+    assert (Ef : front = f) by (unfold front; now rewrite (Hnth _ _ Ek)).
+    assert (Hsub : forall j y, In y (nth j (fronts_of xq cstore log) []) -> In y l) by (intros j y Hy; apply LCov; eauto).
+    assert (Hfinj : sid_inj front) by (apply (sid_inj_incl l); [intros y Hy; eapply Hsub; eauto|assumption]).
+    pose proof (loop_crowd _ _ _ _ _ _ Hl) as LC. rewrite Forall_forall in LC.
+    pose proof (LC _ (nth_error_In _ _ Ek)) as Hcs. simpl in Hcs. rewrite <- Ef in Hcs.
+    destruct (crowding_binds _ _ _ Hfinj Hcs x Hin) as [v Hv].
+    exists front, cs, v. repeat split; auto.
+    - intro Hy. exact (proj2 (RF _ _ H) Hy).
+    - intro Hy. exact (proj1 (RF _ _ H) Hy).
+    - intros y Hy. eapply Hsub; eauto.
+    - apply (crowd_of_at log k r f cs _ v Ek Hv). intros j e Hj He.
+      pose proof (LC _ (nth_error_In _ _ He)) as Hce.
+      assert (Hje : sid_inj (snd (fst e))).
+      { apply (sid_inj_incl l); [|assumption]. intros y Hy. apply (Hsub j). now rewrite (Hnth _ _ He). }
+      apply (crowding_unbound _ _ _ _ Hje Hce).
+      destruct (has_sid (sid x) (snd (fst e))) eqn:Hs; [|reflexivity]. exfalso.
+      apply has_sid_In in Hs. destruct Hs as [y [Hy0 Ey]].
+      assert (Hy : In y (nth j (fronts_of xq cstore log) [])) by (rewrite (Hnth _ _ He); exact Hy0).
+      assert (y = x) by (apply Hinj; [eapply Hsub; eauto|assumption|assumption]). subst y.
+      assert (j = k) by (eapply LDis; eauto). lia.
+  Qed.
+
+  (* reading the attributes back never fails *)
+  Lemma annotate_total : exists ann, annotate log l = Some ann.
+  Proof.
+    assert (G : forall l', incl l' l -> exists ann, annotate log l' = Some ann).
+    { induction l' as [|x l' IH]; intro Hi; [simpl; eauto|].
+      assert (HxL : In x l) by (apply Hi; now left).
+      destruct (rank_total xq (x_sol_cmp c dirs) wfs cstore (crowding (length dirs)) R1 R2 R3 R4 l log Hwf Hinj Hl x HxL) as [k [Hk _]].
+      unfold rank in Hk.
+      destruct (log_crowd_front x k HxL Hk) as [_ [_ [v [_ [_ [_ [_ [_ [_ Hc]]]]]]]]].
+      destruct IH as [ann' Ha]; [intros y Hy; apply Hi; now right|].
+      simpl. rewrite Hk, Hc, Ha. eauto. }
+    apply G. intros y Hy. exact Hy.
+  Qed.
+End XLog.
+
+(* nondominated_sort never fails (no round limit hit, no exception) on well-formed populations with finite objectives *)
+Theorem x_nd_sort_total c dirs l : Forall (sol_wf xq xltb xzero dirs) l -> sid_inj l ->
+  (forall x, In x l -> finite_objs x) -> exists ann, x_nd_sort c dirs l = Some ann.
+Proof.
+  intros Hwf Hinj Hfin.
+  destruct (nd_loop_fuel xq (x_sol_cmp c dirs) (sol_wf xq xltb xzero dirs) cstore (crowding (length dirs))
+              (scmp_range xq xltb xneg xzero xq_laws c dirs) (scmp_antisym xq xltb xneg xzero xq_laws c dirs)
+              (sdom_trans xq xltb xneg xzero xq_laws c dirs) (sdom_irrefl xq xltb xneg xzero xq_laws c dirs)
+              (length l) l 0 Hwf Hinj (le_n _)) as [log Hlog].
+  { intros f Hf. destruct (crowding_total (length dirs) f) as [st Hst]; [|congruence].
+    intros x Hx. split; [apply Hfin; now apply Hf|].
+    rewrite Forall_forall in Hwf. destruct (Hwf x (Hf x Hx)) as [Hlen _]. simpl in Hlen. lia. }
+  assert (Hlog' : x_nd_sort_log c dirs l = Some log) by exact Hlog.
+  unfold x_nd_sort. rewrite Hlog'.
+  apply (annotate_total c dirs l log Hwf Hinj Hlog').
+Qed.
+
 Section XSort.
   Variable c : bool.
   Variable dirs : list bool.
@@ -1251,43 +1436,13 @@ Section XSort.
   Proof.
     intro Ha. destruct xsort_log as [log [Hl Han]].
     destruct (ann_rank log a Hl Han Ha) as [Hr Hc].
-    pose proof (rank_front xq (x_sol_cmp c dirs) wfs cstore (crowding (length dirs)) R1 R2 R3 R4 l log Hwf Hinj Hl) as RF.
-    destruct (loop_layering xq (x_sol_cmp c dirs) wfs cstore (crowding (length dirs)) R1 R2 R3 R4 _ _ _ _ Hl Hwf Hinj) as [L _].
-    pose proof (layering_cover xq (x_sol_cmp c dirs) cstore (crowding (length dirs)) _ _ L) as LCov.
-    pose proof (layering_disjoint xq (x_sol_cmp c dirs) cstore (crowding (length dirs)) _ _ L) as LDis.
-    pose proof (proj1 (RF _ _ (ann_In a Ha)) Hr) as Hin.
-    set (k := a_rank a) in *. set (front := nth k (fronts_of xq cstore log) []) in *.
-    assert (Hk : k < length log).
-    { destruct (Nat.lt_ge_cases k (length log)) as [|G]; [assumption|]. exfalso. unfold front in Hin.
-      rewrite nth_overflow in Hin; [contradiction|]. unfold fronts_of. now rewrite map_length. }
-    assert (Hnth : forall j e, nth_error log j = Some e -> nth j (fronts_of xq cstore log) [] = snd (fst e)).
-    { intros j e He. unfold fronts_of.
-      apply (map_nth_error (fun e => snd (fst e))) in He. now apply nth_error_nth. }
-    destruct (nth_error log k) as [[[r f] cs]|] eqn:Ek; [|apply nth_error_None in Ek; lia].
-    assert (Ef : front = f) by (unfold front; now rewrite (Hnth _ _ Ek)).
-    assert (Hsub : forall j x, In x (nth j (fronts_of xq cstore log) []) -> In x l) by (intros j x Hx; apply LCov; eauto).
-    assert (Hfinj : sid_inj front) by (apply (sid_inj_incl l); [intros x Hx; eapply Hsub; eauto|assumption]).
-    pose proof (loop_crowd _ _ _ _ _ _ Hl) as LC. rewrite Forall_forall in LC.
-    pose proof (LC _ (nth_error_In _ _ Ek)) as Hcs. simpl in Hcs. rewrite <- Ef in Hcs.
+    destruct (log_crowd_front c dirs l log Hwf Hinj Hl (a_sol a) (a_rank a) (ann_In a Ha) Hr)
+      as [front [cs [v [Hin [Hfi [Hmem [Hsub [Hcs [Hv Hco]]]]]]]]].
     exists front, cs. repeat split; auto.
-    - intro Hb. pose proof (proj2 (RF _ _ (ann_In b H)) Hb) as Hrb. unfold rank in Hrb.
-      destruct (ann_rank log b Hl Han H) as [Hrb' _]. rewrite Hrb' in Hrb. now injection Hrb.
-    - intro Eb. apply RF; [now apply ann_In|]. unfold rank. destruct (ann_rank log b Hl Han H) as [Hrb' _].
-      now rewrite Hrb', Eb.
-    - intros x Hx. eapply Hsub; eauto.
-    - destruct (crowding_binds _ _ _ Hfinj Hcs (a_sol a) Hin) as [v Hv].
-      assert (Hco : crowd_of log (sid (a_sol a)) = Some v).
-      { apply (crowd_of_at log k r f cs _ v Ek Hv). intros j e Hj He.
-        pose proof (LC _ (nth_error_In _ _ He)) as Hce.
-        assert (Hje : sid_inj (snd (fst e))).
-        { apply (sid_inj_incl l); [|assumption]. intros x Hx. apply (Hsub j). now rewrite (Hnth _ _ He). }
-        apply (crowding_unbound _ _ _ _ Hje Hce).
-        destruct (has_sid (sid (a_sol a)) (snd (fst e))) eqn:Hs; [|reflexivity]. exfalso.
-        apply has_sid_In in Hs. destruct Hs as [y [Hy0 Ey]].
-        assert (Hy : In y (nth j (fronts_of xq cstore log) [])) by (rewrite (Hnth _ _ He); exact Hy0).
-        assert (y = a_sol a) by (apply Hinj; [eapply Hsub; eauto|now apply ann_In|assumption]). subst y.
-        assert (j = k) by (eapply LDis; eauto). lia. }
-      rewrite Hc in Hco. now injection Hco as ->.
+    - intro Hb. apply (Hmem _ (ann_In b H)) in Hb.
+      destruct (ann_rank log b Hl Han H) as [Hrb _]. rewrite Hrb in Hb. now injection Hb.
+    - intro Eb. apply (Hmem _ (ann_In b H)). destruct (ann_rank log b Hl Han H) as [Hrb _]. now rewrite Hrb, Eb.
+    - rewrite Hc in Hco. injection Hco as ->. exact Hv.
   Qed.
 
   Corollary x_crowd_nonneg a : In a ann -> xnonneg (a_crowd a).
